@@ -145,4 +145,56 @@ theorem drain (k : Nat) : ∀ s : St, Inv s → 1 ≤ s.c → s.lock = .free →
           · rw [hd]; simp [h4a]
           · rw [hacc]; simp [h4a]
 
+/-! ### the composite operations of the driver stay inside the transition system -/
+
+theorem reach_step {c b : Nat} {s s' : St} {a : Act} (h : Reach c b s) (hs : step s a = some s') : Reach c b s' := by
+  obtain ⟨acts, ha⟩ := h
+  exact ⟨acts ++ [a], by rw [run_append, ha]; simp [run, hs]⟩
+
+theorem reach_stepD {c b : Nat} {s : St} (a : Act) (h : Reach c b s) : Reach c b (stepD s a) := by
+  unfold stepD
+  cases hs : step s a with
+  | none => simpa using h
+  | some s' => simpa using reach_step h hs
+
+theorem reach_offerCall {c b : Nat} {s : St} (v : Nat) (h : Reach c b s) : Reach c b (offerCall s v).1 := by
+  unfold offerCall
+  cases h0 : step s (.offerLock v) with
+  | none => simpa using h
+  | some s1 =>
+    have r1 := reach_step h h0
+    simp only
+    cases h1 : step s1 (.offerChan v) with
+    | some s2 => simpa using reach_step r1 h1
+    | none =>
+      simp only
+      cases h2 : step s1 (.offerHandoff v) with
+      | some s2 => simpa using reach_step r1 h2
+      | none =>
+        simp only
+        cases h3 : step s1 (.offerFull v) with
+        | some s2 => simpa using reach_step r1 h3
+        | none =>
+          simp only
+          cases h4 : step s1 (.offerPool v) with
+          | some s2 => simpa using reach_step r1 h4
+          | none => simpa using r1
+
+theorem reach_pollCall {c b : Nat} {s : St} (h : Reach c b s) : Reach c b (pollCall s).1 := by
+  unfold pollCall
+  simp only
+  split
+  · exact reach_stepD _ (reach_stepD _ h)
+  · exact reach_stepD _ (reach_stepD _ h)
+
+theorem reach_syncLoader {c b : Nat} {s : St} (h : Reach c b s) : Reach c b (syncLoader s) := by
+  unfold syncLoader
+  split
+  · exact reach_stepD _ (reach_stepD _ h)
+  · exact h
+
+theorem reach_loaderNext {c b : Nat} {s : St} (h : Reach c b s) : Reach c b (loaderNext s).1 := by
+  unfold loaderNext
+  split <;> exact reach_stepD _ h
+
 end FpgoVerif.C07
